@@ -589,7 +589,7 @@ func gen(r *rand.Rand, tier string, n int) []any {
 	if tier == "thorough" {
 		maxLen = 60
 	}
-	nStore := n / 12 // every store case runs two real Series requests
+	nStore := n / 8 // every store case runs two real Series requests
 	for i := 0; i < nStore; i++ {
 		const h = int64(3600000)
 		in := input{Kind: "store", SkipChunks: r.Intn(5) == 0, SmallBatch: r.Intn(2) == 0, Lazy: r.Intn(2) == 0}
@@ -613,6 +613,17 @@ func gen(r *rand.Rand, tier string, n int) []any {
 			{{"=", "a", "2"}, {"!=", "b", "1"}},
 			{{"=~", "a", "2|3"}, {"=~", "b", "1|4"}},
 		}[r.Intn(13)]
+		if in.Lazy && r.Intn(5) != 0 { // two posting groups on different labels: the second is expanded lazily
+			in.Matchers = [][]mreq{
+				{{"=", "a", "1"}, {"=~", "b", "1|2|3"}},
+				{{"=~", "a", "1|2|3"}, {"=", "b", "1"}},
+				{{"=~", "a", ".+"}, {"=~", "b", "2|3|4"}},
+				{{"=", "a", "2"}, {"!=", "b", "1"}},
+				{{"=~", "a", "2|3"}, {"=~", "b", "1|4"}},
+				{{"=~", "a", "1|2"}, {"=~", "b", ".+"}},
+				{{"=", "b", "2"}, {"=~", "a", "2|3|4"}},
+			}[r.Intn(7)]
+		}
 		// limits around the real reservation totals are found by a dry run with limits disabled
 		dry := in
 		dry.Limit, dry.ChunkLimit = 0, 0
